@@ -6,12 +6,15 @@ func init() {
 	register(&PropSpec{
 		ID: "C19",
 		Jobs: func(tier string, seed int64) []Job {
-			inits := []string{"a", "x", "s", "p", "nil", "[a,b]", "[0,1,2,3,4,5,6,7,8,a]", "{a:b}", "{1:1,2:2,3:3,4:4,5:a}", "func(y){y+a}"}
+			inits := []string{"a", "x", "s", "p", "nil", "[a,b]", "[0,1,2,3,4,5,6,7,8,a]", "{a:b}", "{1:1,2:2,3:3,4:4,5:a}", "func(y){y+a}", "[x, [a]]", "{1:x, 2:[a]}", "(n => (y => y+n))(a)"}
 			muts := []string{
 				"K = b", "K := b", "K = [b]", "K = y", "K++", "K--", "++K", "--K", "K[0] = b", "K[-1] = b", "K[c] = b", "K[1] = b", "K.k = b", "K[5] = b",
 				"del(K[0])", "del(K[1])", "del(K[5])", "del(K.k)", "for K = 3 {1}", "for K = [b, c] {1}", "for K = 0:2 {K}", "for K = k0 {K}",
 				"func f(K){K}; f(b)", "func f(K){K = c; K}; f(b)", "for K = 3 {println(K)}", "func f(K){println(K); K}; f(b); K", "for K = 2 {K}; K", "func g(){K = b}; g()", "func g(){K[0] = b}; g()", "func g(){K++}; g()", "func g(){del(K[0])}; g()",
 				"for i = 2 {K = i}", "for i = 2 {K[0] = i}", "h = func(){K = b}; h()", "h = func(){func(){K[0] = b}()}; h()", "K = K", "K = a", "K, b",
+				// the "same value" again, up to what == ignores: int vs float inside containers, the sign of zero, a closure with the same text
+				"K = K * 1.0", "K = -K", "K = 0.0 - K", "K[0] = K[0] * 1.0", "K[0] = -K[0]", "K[1] = [a * 1.0]", "K[2] = [a * 1.0]", "K[a] = K[a] * 1.0", "K[5] = K[5] * 1.0", "K = [a * 1.0, b]", "K = {a: b * 1.0}", "K = [-x, [a]]", "K = {1: -x, 2: [a]}",
+				"K = (n => (y => y+n))(b)", "K = func(y){y+a}", "mk = n => (y => y+n); K = mk(c)",
 				"func g(u){u[0] = b; u}; g(K)", "L = K; L[0] = b", "L = K; L = L + [b]", "L = K; del(L[1])", "L = K + K", "[K][0][0] = b", "catch(K = b)", "K = b; K = c",
 			}
 			var jobs []Job
@@ -74,6 +77,39 @@ func init() {
 					sk{kind, "a1 = %C; b1 = a1[0:2]", "b1 = b1 + b1", []string{"a1"}},
 				)
 			}
+			// values built inside a function from an outer variable must not stay tied to that variable
+			for _, kind := range []string{"array", "map"} {
+				for _, mk := range []string{"[a1, 0]", "{1: a1}", "[[a1]]", "{1: [a1]}", "a1", "first([a1])", "rest([0, a1])", "[a1] + [a1]", "va(a1)", "va(0, a1)", "(() => [a1])()", "if true {[a1]}", "[a1][0:1]"} {
+					for _, m := range []string{"a1[0] = c", "a1 = c", "del(a1)", "a1 = a1 + a1"} {
+						sks = append(sks, sk{kind, "a1 = %C; func va(..){..}; func mk(){" + mk + "}; w = mk()", m, []string{"w"}})
+					}
+				}
+				sks = append(sks,
+					sk{kind, "a1 = %C; func mk(){() => [a1]}; g = mk(); w = g()", "a1[0] = c", []string{"w"}},
+					sk{kind, "a1 = %C; func mk(u){[u, a1]}; w = mk(a1)", "a1[0] = c", []string{"w"}},
+					sk{kind, "a1 = %C; func mk(){t = a1; [t]}; w = mk()", "a1[0] = c", []string{"w"}},
+					sk{kind, "a1 = %C; w = []; func add(){w = w + [a1]}; add()", "a1[0] = c", []string{"w"}},
+					sk{kind, "a1 = %C; w = {}; func add(){w[1] = a1}; add()", "a1[0] = c", []string{"w"}},
+					sk{kind, "a1 = %C; func mk(){for e = [a1] {return [e]}}; w = mk()", "a1[0] = c", []string{"w"}},
+				)
+			}
+			// the introspection map is a value like any other once it is bound
+			sks = append(sks,
+				sk{"map", "e0 = %C; a1 = info", "zz9 = 1; b1 = info", []string{"a1"}},
+				sk{"map", "e0 = %C; a1 = info.globals", "zz9 = 1; b1 = info.globals", []string{"a1"}},
+				sk{"map", "e0 = %C; func fi(){info}; a1 = fi()", "func gi(){zz8 = 2; info}; b1 = gi()", []string{"a1"}},
+			)
+			// two bindings of one map that each get a new largest key; a partial view that grows
+			sks = append(sks,
+				sk{"map", "a1 = %C; a1.zz1 = 1; b1 = a1; b1.zz2 = c", "a1.zz3 = b", []string{"b1"}},
+				sk{"map", "a1 = %C; a1.zz1 = 1; b1 = a1; a1.zz3 = b", "b1.zz2 = c", []string{"a1"}},
+				sk{"map", "a1 = %C; del(a1[0]); b1 = a1; b1.zz2 = c", "a1.zz3 = b", []string{"b1"}},
+				sk{"map", "a1 = %C; b1 = a1[0:2]", "b1.zz = c", []string{"a1"}},
+				sk{"map", "a1 = %C; b1 = a1[1:3]", "b1.zz = c", []string{"a1"}},
+				sk{"map", "a1 = %C; b1 = a1[0:2]", "a1.zz = c", []string{"b1"}},
+				sk{"array", "a1 = %C; b1 = a1[0:2]", "b1 = b1 + [c]", []string{"a1"}},
+				sk{"array", "a1 = %C; b1 = a1[1:3]; c1 = b1 + [b]", "e1 = b1 + [c]", []string{"a1", "c1"}},
+			)
 			// x + y never modifies x or y; two appends from the same left operand are independent
 			sks = append(sks,
 				sk{"array", "a1 = %C + [7]; c1 = a1 + [c]", "e1 = a1 + [b]", []string{"a1", "c1"}},
@@ -91,7 +127,7 @@ func init() {
 		Budget: map[string]time.Duration{"quick": 6 * time.Minute, "thorough": 40 * time.Minute},
 		Reach:  []string{"mutation applied"},
 		Bounds: map[string]interface{}{"sizes": "every container size 0..12 (20 thorough): both sides of the 8-element / 4-pair thresholds",
-			"skeletons": "7 ways of obtaining a second binding (assignment, function result, through an array, through a map, full slice, concatenation) x 11-13 mutations (index assignment incl. negative, append, merge, repeat, del, dot assignment, from a function, a loop, a nested container) x {array, map}; rest/slice parts; pairs of appends from one left operand",
+			"skeletons": "13 ways of building a value from an outer variable inside a function (array / map literal, nesting, return, first/rest, +, variadic extras, lambda, if, slice) x 4 later changes of that variable; two bindings of one map each getting a new largest key; partial views that grow; 7 ways of obtaining a second binding (assignment, function result, through an array, through a map, full slice, concatenation) x 11-13 mutations (index assignment incl. negative, append, merge, repeat, del, dot assignment, from a function, a loop, a nested container) x {array, map}; rest/slice parts; pairs of appends from one left operand",
 			"values":    "the stored value and the first element are symbolic int64",
 			"capacity":  "Go slice growth is modelled with the gc runtime's nextslicecap + size classes, so append aliasing through spare capacity is the native build's"},
 		Outside: []string{"containers larger than 20", "extension functions that mutate their argument in place"},
